@@ -156,6 +156,9 @@ func (f *File) GetDirectoryHeader() ([]byte, error) {
 		ExtraLen:         uint16(len(f.Extra)),
 		CommentLen:       uint16(len(f.Comment)),
 	}
+	// the ZIP64 field is synthesised into a copy: f.Extra stays what it was, or a second call
+	// (signappx hashes the directory and then writes it) would prepend the field again
+	extraBytes := f.Extra
 	if f.CompressedSize >= uint32Max || f.UncompressedSize >= uint32Max || f.Offset >= uint32Max {
 		// the ZIP64 field is prepended to the existing extra block; together they have to fit the 16-bit length
 		if len(f.Extra)+zip64ExtraLen+4 > uint16Max {
@@ -174,14 +177,14 @@ func (f *File) GetDirectoryHeader() ([]byte, error) {
 		b := bytes.NewBuffer(make([]byte, 0, zip64ExtraLen+4+len(f.Extra)))
 		_ = binary.Write(b, binary.LittleEndian, extra)
 		b.Write(f.Extra)
-		f.Extra = b.Bytes()
+		extraBytes = b.Bytes()
 		hdr.ExtraLen = uint16(b.Len())
 		hdr.ReaderVersion = zip45
 	}
-	b := bytes.NewBuffer(make([]byte, 0, directoryHeaderLen+len(f.Name)+len(f.Extra)+len(f.Comment)))
+	b := bytes.NewBuffer(make([]byte, 0, directoryHeaderLen+len(f.Name)+len(extraBytes)+len(f.Comment)))
 	_ = binary.Write(b, binary.LittleEndian, hdr)
 	b.WriteString(f.Name)
-	b.Write(f.Extra)
+	b.Write(extraBytes)
 	b.Write(f.Comment)
 	return b.Bytes(), nil
 }
